@@ -7,8 +7,10 @@ package main
 // second time from a binary built with the race detector; a reported race is the replay.
 
 import (
+	"bytes"
 	"fmt"
 	"math/rand"
+	"strings"
 	"sync"
 
 	"github.com/opsidian/parsley/combinator"
@@ -21,6 +23,33 @@ import (
 
 func c14Gen(rng *rand.Rand, tier string, i int) *Sexp {
 	var g genGrammar
+	if i%4 == 1 {
+		// literal workload: one built-in terminal (String with escapes, Char, Integer, Float, Duration, Bool, …)
+		// under Trim, repeated: Sentence(Many(Trim(term))) on four different literal lists, so that any state a
+		// terminal keeps between calls is shared by the concurrent runs
+		kind := c08Kinds[rng.Intn(len(c08Kinds))]
+		if rng.Intn(2) == 0 || kind == "regexp" { // (user regexps need the C08 builder's expression table)
+			kind = "string"
+		}
+		term := c08TermFor(rng, kind)
+		root := LA("sentence", LA("many", N(1), noOpts, LA("rtrim", A("nl"), LA("ltrim", A("nl"), term))))
+		inputs := LA("inputs")
+		var all []byte
+		for k := 0; k < 4; k++ {
+			var sb strings.Builder
+			for n := 1 + rng.Intn(4); n > 0; n-- {
+				sb.WriteString(litSamples(rng, kind))
+				sb.WriteString([]string{" ", "\n", "  "}[rng.Intn(3)])
+			}
+			inputs.List = append(inputs.List, H([]byte(sb.String())))
+			all = append(all, []byte(sb.String())...)
+		}
+		first := inputs.List[1].Bytes()
+		c := L(LA("env"), LA("root", root), LA("files", L(HS("f"), H(first))), LA("target", N(0)))
+		norm := bytes.ReplaceAll(first, []byte("\r\n"), []byte("\n"))
+		c.List = append(c.List, paramsFor(L(LA("env"), LA("root", root)), norm, allCursors(len(norm))), inputs)
+		return c
+	}
 	if i%3 == 0 {
 		env, root := sumGrammar()
 		g = genGrammar{env, root}
